@@ -77,7 +77,7 @@ func (s scenario) expected() (perFrame [][]expMsg) {
 }
 
 func c05(c *Ctx) {
-	c.Rule = "transfers of N packets (N 1..6 exhaustively over all arrival orders with packet 1 first x every single duplicate; two interleaved transfers, all interleavings for N<=3; N in 7..40 and 255 with random orders and duplicates), bodies non-empty equal/unequal with and without escape bytes, both versions, impossible numbers 0 / N+1 / 65535 injected at every position, unfragmented messages interleaved; each scenario fed frame by frame, coalesced in one read (<=1023 bytes per read), with random cuts and byte by byte; plus ill-formed sub-package streams (correspondence only). A case is non-trivial when it contains a transfer of at least 2 packets; distinct = distinct request lines"
+	c.Rule = "transfers of N packets (N 1..6 exhaustively over all arrival orders with packet 1 first x every single duplicate; two interleaved transfers, all interleavings for N<=3; N in 7..40 and 255 with random orders and duplicates), bodies non-empty equal/unequal with and without escape bytes, both versions, impossible numbers 0 / N+1 / 65535 injected at every position, unfragmented messages interleaved; each scenario fed frame by frame, coalesced in one read (<=1023 bytes per read), with random cuts and byte by byte; plus ill-formed sub-package streams (correspondence only); plus histories whose reads are spread over time (clock steps of 5..20 s between reads, below 60 s in all, frames split over reads): reassembly unaffected, only generated 0x8003 messages added. A case is non-trivial when it contains a transfer of at least 2 packets; distinct = distinct request lines"
 	rng := c.Rng
 	quick := c.Quick()
 
@@ -404,7 +404,98 @@ func c05(c *Ctx) {
 		c.Count("ill-formed")
 	}
 
-	// (5) the same through a real server on loopback
+	// (5) reads spread over time (C05_segmentation_timed): clock steps of 5..20 s between the reads, the
+	// whole history below 60 s; the housekeeping pass may append generated 0x8003 messages to a read
+	// (C14's subject: only checked to be nothing else), the reassembly must be unaffected
+	ntimed := 300
+	if !quick {
+		ntimed = 6000
+	}
+	for i := 0; i < ntimed; i++ {
+		n := 2 + rng.Intn(6)
+		trs := []Transfer{RandTransfer(rng, []uint16{0x0801, 0x0704, 0x0200}[rng.Intn(3)], n, 8)}
+		items := []item{pk(trs, 0, 1)}
+		for _, o := range rng.Perm(n - 1) {
+			items = append(items, pk(trs, 0, o+2))
+			if rng.Intn(4) == 0 {
+				items = append(items, pk(trs, 0, 2+rng.Intn(n-1)))
+			}
+			if rng.Intn(6) == 0 {
+				items = append(items, item{f: trs[0].Odd([]int{0, n + 1, 65535}[rng.Intn(3)], RandBody(rng, 2)), tr: -1})
+			}
+			if rng.Intn(5) == 0 {
+				hb := FrameSpec{ID: 0x0002, Phone: trs[0].Phone, Ver2019: trs[0].Ver2019, Serial: uint16(rng.Intn(65536))}
+				items = append(items, item{f: hb, tr: -1})
+			}
+		}
+		s := scenario{trs, items}
+		exp := s.expected()
+		var st []Step
+		total := 0
+		for k, it := range items {
+			if k > 0 && rng.Intn(5) < 2 {
+				a := []int{5005, 7000, 20000}[rng.Intn(3)]
+				if total+a <= 55000 {
+					st = append(st, Step{Age: a, IsAge: true})
+					total += a
+				}
+			}
+			w := it.f.Wire()
+			if rng.Intn(4) == 0 && len(w) > 2 { // the frame split over two reads
+				cut := 1 + rng.Intn(len(w)-1)
+				st = append(st, Step{Data: w[:cut]}, Step{Data: w[cut:]})
+			} else {
+				st = append(st, Step{Data: w})
+			}
+		}
+		req := "sp " + StepsString(st)
+		obs := RunScript(st)
+		c.Case(req, ObsString(obs), total > 0)
+		c.Count("timed")
+		// all own messages over the whole history, generated re-requests (trailing 0x8003 of a read) removed
+		var got []string
+		bad := ""
+		for _, o := range obs {
+			if o.Err != "0" {
+				bad = "read reported an error / panic: " + o.String()
+			}
+			ms := o.Msgs
+			for len(ms) > 0 {
+				p := strings.Split(ms[len(ms)-1], ",")
+				fr := SkDecode(Unhx(p[6]))
+				if p[0] == "32771" && p[4] == "0" && fr.OK && fr.Serial == 0 && len(p[5]) >= 6 && p[5][:4] == fmt.Sprintf("%04x", trs[0].Serial0) {
+					ms = ms[:len(ms)-1]
+					continue
+				}
+				break
+			}
+			got = append(got, ms...)
+		}
+		var want []expMsg
+		for _, e := range exp {
+			want = append(want, e...)
+		}
+		if bad == "" && len(got) != len(want) {
+			bad = fmt.Sprintf("%d messages delivered by the completePack loop over the history, expected %d", len(got), len(want))
+		}
+		if bad == "" {
+			for j, m := range got {
+				p := strings.Split(m, ",")
+				w := want[j]
+				if w.complete && (p[4] != "1" || p[0] != fmt.Sprint(w.id) || p[5] != w.body) ||
+					!w.complete && (p[4] != "0" || p[0] != fmt.Sprint(w.id) || p[1] != fmt.Sprint(w.serial) || p[3] != fmt.Sprint(w.no) || p[6] != w.raw) {
+					bad = fmt.Sprintf("message %d of the history is not the expected one: %s", j, m)
+					break
+				}
+			}
+		}
+		if bad != "" {
+			c.Violate(Violation{Signature: "C05/timed", What: "reads spread over time (below 60 s): " + bad, Input: req,
+				Observed: Trunc(ObsString(obs), 3000), Required: Trunc(descr(want), 3000)})
+		}
+	}
+
+	// (6) the same through a real server on loopback
 	socketRun(c)
 }
 
